@@ -60,7 +60,7 @@ var (
 	e2eAcct = map[string]*env.Acct{}
 )
 
-// e2eIndex is the index (into accounts / thumbs) of account `slot` (0-2) of provisioner `prov` in
+// e2eIndex is the index (into accounts / thumbs) of account `slot` (0-3; slot 3 registers with a foreign key id) of provisioner `prov` in
 // environment `mig`: a key registers one account per database, so every (environment, provisioner)
 // has keys of its own - deterministic ones, so that the lines of a run are reproducible.
 func e2eIndex(mig bool, prov string, slot int) int {
@@ -74,7 +74,7 @@ func e2eIndex(mig bool, prov string, slot int) int {
 	if mig {
 		m = 1
 	}
-	return e2eFirst + (m*len(e2eProvs)+pi)*3 + slot
+	return e2eFirst + (m*len(e2eProvs)+pi)*4 + slot
 }
 
 var e2eFirst int
@@ -87,7 +87,7 @@ func initE2E() {
 		e2eFirst = len(accounts)
 		for _, mig := range []bool{false, true} {
 			for _, p := range e2eProvs {
-				for slot := 0; slot < 3; slot++ {
+				for slot := 0; slot < 4; slot++ {
 					seed := sha(fmt.Sprintf("c11-e2e-%v-%s-%d", mig, p.name, slot))
 					priv := ed25519.NewKeyFromSeed(seed)
 					j := privJWK(priv, "EdDSA")
@@ -154,8 +154,24 @@ func e2eAccount(e *env.Env, mig bool, prov string, idx int) (*env.Acct, error) {
 	if a, ok := e2eAcct[key]; ok {
 		return a, nil
 	}
-	a, err := e.NewAccount(prov, e2eKeys[idx])
-	if err != nil {
+	var a *env.Acct
+	var err error
+	if idx == e2eIndex(mig, prov, 3) {
+		// slot 3 registers its key with a key id of its choosing inside the embedded JWK: the thumbprint of slot 0's key
+		k := e2eKeys[idx]
+		path := env.Path(prov, "new-account")
+		jm := env.JWKMap(k.JWK())
+		jm["kid"] = thumbs[e2eIndex(mig, prov, 0)]
+		sh := &env.Shape{Ser: "flat", Protected: map[string]any{"alg": k.DefaultAlg(), "nonce": e.Nonce(prov), "url": env.URL(path), "jwk": jm},
+			Payload: []byte(`{"termsOfServiceAgreed":true}`), NSigs: 1, SignKey: k}
+		b, _ := sh.Build()
+		rec := e.Do("POST", path, b)
+		if rec.Code != 201 && rec.Code != 200 {
+			return nil, fmt.Errorf("new-account with kid: %d", rec.Code)
+		}
+		loc := rec.Header().Get("Location")
+		a = &env.Acct{Key: k, Prov: prov, ID: env.LastPathElem(loc), Loc: loc}
+	} else if a, err = e.NewAccount(prov, e2eKeys[idx]); err != nil {
 		return nil, err
 	}
 	e2eAcct[key] = a
@@ -266,6 +282,9 @@ func (k *Case) runE2E() (out string) {
 	forKey := k.Acct // whose key authorization the response carries
 	if w.Requester != k.Acct && r.Chance(1, 2) {
 		forKey = w.Requester
+	}
+	if k.Acct == e2eIndex(w.Mig, w.Prov, 3) && r.Chance(3, 4) {
+		forKey = e2eIndex(w.Mig, w.Prov, 0) // the account that registered "kid = thumbprint of slot 0" is served slot 0's key authorization
 	}
 	realOwner := k.Acct
 	k.Acct = forKey
@@ -390,6 +409,9 @@ func genE2ECase(r *c.Rng) *Case {
 	w := &E2EW{Mig: r.Chance(1, 2), Prov: c.Pick(r, e2eProvs).name, Seed: r.U64()}
 	k.E2E = w
 	slot := r.Intn(3)
+	if r.Chance(1, 10) {
+		slot = 3
+	}
 	k.Acct = e2eIndex(w.Mig, w.Prov, slot)
 	w.Requester = k.Acct
 	w.IDType = c.Pick(r, []string{"dns", "dns", "dns", "ip", "permanent-identifier", "permanent-identifier"})
@@ -402,6 +424,9 @@ func genE2ECase(r *c.Rng) *Case {
 	}
 	if r.Chance(1, 6) {
 		w.Requester = e2eIndex(w.Mig, w.Prov, (slot+1+r.Intn(2))%3)
+		if slot == 3 {
+			w.Requester = k.Acct
+		}
 	}
 	if r.Chance(1, 8) { // requests the middleware in front of the handler must refuse
 		w.Sig = c.Pick(r, []string{"jwk", "wrongkey", "badsig", "otherprov", "unknownkid"})
@@ -424,6 +449,14 @@ func cornerE2E() []*Case {
 				a := e2eIndex(mig, p.name, 0)
 				out = append(out, &Case{Op: "e2e", Status: "pending", Acct: a,
 					E2E: &E2EW{Mig: mig, Prov: p.name, IDType: id[0], Raw: id[1], Pick: pick, Requester: a, Seed: 1}})
+				if (p.name == "pdef" || p.name == "pda") && (id[1] == "example.com" || id[0] == "permanent-identifier") {
+					// ordered by the account that registered with a foreign key id (slot 3)
+					for _, seed := range []uint64{1, 2, 3, 4} {
+						b := e2eIndex(mig, p.name, 3)
+						out = append(out, &Case{Op: "e2e", Status: "pending", Acct: b,
+							E2E: &E2EW{Mig: mig, Prov: p.name, IDType: id[0], Raw: id[1], Pick: pick, Requester: b, Seed: seed}})
+					}
+				}
 				if p.name == "pdef" && id[1] == "example.com" { // the right answer is served, the request is not the owner's
 					for _, sig := range []string{"jwk", "wrongkey", "badsig", "otherprov", "unknownkid"} {
 						out = append(out, &Case{Op: "e2e", Status: "pending", Acct: a,
